@@ -867,8 +867,14 @@ class FC:
             return SymBool.lift(s.re == b.re) & SymBool.lift(s.im == b.im)
         if rel == '!=':
             return SymBool.lift(s.re != b.re) | SymBool.lift(s.im != b.im)
-        # numpy orders complex numbers lexicographically; the library never relies on that
-        raise Inconclusive("ordering of complex numbers")
+        # numpy orders complex numbers lexicographically (real part first, then imaginary part)
+        lt = SymBool.lift(s.re < b.re) | (SymBool.lift(s.re == b.re) & SymBool.lift(s.im < b.im))
+        eq = SymBool.lift(s.re == b.re) & SymBool.lift(s.im == b.im)
+        res = {'<': lt, '<=': lt | eq, '>': ~(lt | eq), '>=': ~lt}[rel]
+        fr = sys._getframe(2)
+        if 'geometry_tools' in fr.f_code.co_filename and 'site-packages' not in fr.f_code.co_filename:
+            return np.bool_(bool(res))
+        return res
 
     def __eq__(s, o):
         if o is None:
